@@ -91,6 +91,11 @@ extern "C" int clock_gettime(clockid_t id, struct timespec *ts)
   return rc;
 }
 
+// ASan defaults for this binary (keys given in ASAN_OPTIONS by the driver still win). Recording a
+// 30-frame stack for every malloc/free made a shard retain ~150 KiB per case in ASan's stack depot
+// (2.4 GiB after 15 000 construct cases) and tripled the run time; error stacks are not affected.
+extern "C" const char *__asan_default_options() { return "malloc_context_size=3:quarantine_size_mb=32"; }
+
 namespace
 {
 
@@ -531,7 +536,7 @@ std::string summary(const Message &m)
 // =============================================================================== construct
 PBT_PROPERTY(construct)
 {
-  pbt::watchdog(15, "C19/decode/not-prompt");
+  pbt::watchdog(30, "C19/decode/not-prompt");
   Gen g(src);
   Message m = g.message();
   Encoded enc = encode(src, m);
@@ -583,7 +588,7 @@ PBT_PROPERTY(construct)
 // from the bytes the library built.
 PBT_PROPERTY(query)
 {
-  pbt::watchdog(15, "C19/decode/not-prompt");
+  pbt::watchdog(30, "C19/decode/not-prompt");
   Gen g(src);
   int nq = (int)src.weighted({0, 70, 15, 10, 5});
   std::vector<refdns::Question> qs;
@@ -809,7 +814,7 @@ void mustReject(pbt::Case &c, const Bytes &w, int loc, int rdKind, const std::st
 
 PBT_PROPERTY(malformed)
 {
-  pbt::watchdog(15, "C19/decode/not-prompt");
+  pbt::watchdog(30, "C19/decode/not-prompt");
   Gen g(src);
   g.small = true;
   int kind = (int)src.weighted({30, 20, 8, 10, 10, 8, 6, 8});
@@ -1140,7 +1145,7 @@ PBT_PROPERTY(truncate)
 // ================================================================================== mutate
 PBT_PROPERTY(mutate)
 {
-  pbt::watchdog(15, "C19/decode/not-prompt");
+  pbt::watchdog(30, "C19/decode/not-prompt");
   Gen g(src);
   g.small = src.coin();
   Message m = g.message();
@@ -1229,6 +1234,7 @@ struct PutRec
   std::uint64_t ttl = 0;
   bool negative = false;
   std::string how, spelled;
+  std::size_t group = 0; // index into the name table
 };
 
 void clockSelfTest()
@@ -1310,18 +1316,32 @@ static void cacheCase(pbt::Src &src, pbt::Case &c, const std::vector<pbt::Row> &
   std::map<CKey, int> latest;        // key -> tag of the live put (absent: removed / cleared / never put)
   std::int64_t offset = 0;
   bool crossed = false;
+  std::size_t lastGroup = 0;
   pbt::Fmt hist;
   hist << "default=" << (defCfg < 0 ? std::string("ctor()") : std::to_string(defCfg) + "s") << ":";
   int gets = 0, hitsFresh = 0, missFresh = 0, missExpired = 0, hitsVariant = 0;
   const bool ttl0Known = pbt::isKnown(SIG_TTL0);
 
-  auto question = [&](const pbt::Row &op, CKey &key, std::string &text)
+  // `follow`: (get / remove) aim at the question of an earlier put - under another spelling, and now
+  // and then with another type or class - so that histories really come back to their entries
+  auto question = [&](const pbt::Row &op, CKey &key, std::string &text, bool follow = false)
   {
-    const auto &vars = nameVariants[(std::size_t)op[1] % nameVariants.size()];
-    text = vars[(std::size_t)(op[1] / 8) % vars.size()];
-    key.name = foldAscii(text);
+    std::size_t group = (std::size_t)op[1] % nameVariants.size();
     key.type = qtypes[(std::size_t)op[2] % 3];
     key.cls = qclasses[(std::size_t)(op[2] / 4) % 8 == 0 ? 1 : 0];
+    if (follow && !puts.empty() && op[3] % 4 != 0)
+    {
+      const PutRec &p = puts[(std::size_t)(op[3] / 4) % puts.size()];
+      group = p.group;
+      key.type = p.key.type;
+      key.cls = p.key.cls;
+      if (op[4] % 8 == 1) key.type = qtypes[(std::size_t)(op[4] / 8) % 3];
+      if (op[4] % 8 == 2) key.cls = key.cls == 1 ? 3 : 1;
+    }
+    const auto &vars = nameVariants[group];
+    text = vars[(std::size_t)(op[1] / 8) % vars.size()];
+    key.name = foldAscii(text);
+    lastGroup = group;
     return DnsQuestion(text, (DnsType)key.type, (DnsClass)key.cls);
   };
   auto pickTtl = [&](std::int64_t v) { return ttls[(std::size_t)v % (sizeof(ttls) / sizeof(ttls[0]))]; };
@@ -1357,6 +1377,7 @@ static void cacheCase(pbt::Src &src, pbt::Case &c, const std::vector<pbt::Row> &
       p.ttl = minTtl;
       p.how = "put";
       p.spelled = text;
+      p.group = lastGroup;
       p.tBefore = hclock::now();
       {
         hclock::Scope sc;
@@ -1380,6 +1401,7 @@ static void cacheCase(pbt::Src &src, pbt::Case &c, const std::vector<pbt::Row> &
       p.key = key;
       p.negative = true;
       p.spelled = text;
+      p.group = lastGroup;
       int mode = (int)(op[3] % 4);
       std::uint32_t t1 = pickTtl(op[4]), t2 = pickTtl(op[4] / 16);
       if (ttl0Known && t1 == 0) t1 = 1;
@@ -1422,7 +1444,7 @@ static void cacheCase(pbt::Src &src, pbt::Case &c, const std::vector<pbt::Row> &
     }
     else if (kind < 75) // ---------------------------------------------------------- get
     {
-      DnsQuestion q = question(op, key, text);
+      DnsQuestion q = question(op, key, text, true);
       DnsResult out;
       out.header.id = 0xFFFF;
       std::int64_t tBefore = hclock::now();
@@ -1479,7 +1501,7 @@ static void cacheCase(pbt::Src &src, pbt::Case &c, const std::vector<pbt::Row> &
     }
     else if (kind < 80) // ------------------------------------------------------- remove
     {
-      DnsQuestion q = question(op, key, text);
+      DnsQuestion q = question(op, key, text, true);
       {
         hclock::Scope sc;
         cache->remove(q);
@@ -1584,7 +1606,7 @@ Message baseMessage(std::uint16_t qtype)
 }
 void expectExact(pbt::Case &c, Message &m, const Bytes &w)
 {
-  pbt::watchdog(15, "C19/decode/not-prompt");
+  pbt::watchdog(30, "C19/decode/not-prompt");
   c.describe(summary(m) + " wire=" + pbt::hex(sv(w), 400));
   ParseOut o = runParse(w);
   if (!o.ok)
@@ -1625,7 +1647,7 @@ PBT_REGRESSION(txt_utf8_and_long_string) // finding C19-1: UTF-8 text; length oc
 }
 PBT_REGRESSION(empty_rdata_txt_aaaa) // finding C19-2: rdata.size() - 1 wrapped around on RDLENGTH 0
 {
-  pbt::watchdog(15, "C19/decode/not-prompt");
+  pbt::watchdog(30, "C19/decode/not-prompt");
   for (std::uint16_t t : {refdns::T_TXT, refdns::T_AAAA})
   {
     Message m = baseMessage(t);
@@ -1715,7 +1737,7 @@ PBT_REGRESSION(srv_soa_naptr_compressed) // sanity: pointers and chains inside R
 }
 PBT_REGRESSION(pointer_loops_fixed)
 {
-  pbt::watchdog(15, "C19/decode/not-prompt");
+  pbt::watchdog(30, "C19/decode/not-prompt");
   // (1) question name = pointer to itself; (2) iora's mock "pointer_loop": 12 -> 14 -> 12; (3) loop reached from an owner name
   std::vector<Bytes> cases = {
     {0x12, 0x34, 0x01, 0x00, 0, 1, 0, 0, 0, 0, 0, 0, 0xC0, 0x0C, 0, 1, 0, 1},
@@ -1731,7 +1753,7 @@ PBT_REGRESSION(pointer_loops_fixed)
 }
 PBT_REGRESSION(pointer_equals_size)
 {
-  pbt::watchdog(15, "C19/decode/not-prompt");
+  pbt::watchdog(30, "C19/decode/not-prompt");
   // owner name = pointer to exactly the message size (first offset outside)
   Bytes w = {0x12, 0x34, 0x81, 0x80, 0, 1, 0, 1, 0, 0, 0, 0, 1, 'a', 0, 0, 1, 0, 1, 0xC0, 0x00, 0, 1, 0, 1, 0, 0, 0, 5, 0, 4, 10, 0, 0, 1};
   w[20] = (std::uint8_t)w.size();
